@@ -1073,6 +1073,10 @@ DLLIMPORT cfg_value_t *cfg_setopt(cfg_t *cfg, cfg_opt_t *opt, const char *value)
 			for (i = 0; i < opt->nvalues && val == NULL; i++) {
 				cfg_t *sec = opt->values[i]->section;
 
+				/* the first section may have been added without a title */
+				if (!sec->title)
+					continue;
+
 				if (is_set(CFGF_NOCASE, cfg->flags | opt->flags)) {
 					if (strcasecmp(value, sec->title) == 0)
 						val = opt->values[i];
